@@ -74,6 +74,9 @@ CLAIMS['C09'] = ('Bounded symbolic model checking of the real Wavefront / OPD / 
     '(b) the whole Wavefront pipeline with the tracer and (a) uninterpreted: sphere centre = chief image point of the analysed field AND wavelength, radius to the axial paraxial exit pupil, W = (chief path - ray path)/(lambda mm), chief sample exactly 0; (c) the tilt term equals the lead of the start point the real RayGenerator uses (symbolic vignetting); '
     '(d) rms / fan / rms-vs-field / operand are that quantity on the documented samples (recorded tracer calls).',
     'tracer uninterpreted (its unit directions are C02); fields along y; lenses only supply the paraxial exit pupil (plane-surface slab, symbolic thicknesses/index); OPD maps (scipy griddata interpolation) not covered; floats as reals')
+CLAIMS['C12'] = ('Bounded symbolic model checking of the real analysis classes over an UNINTERPRETED tracer: SpotDiagram (data, centroid on the primary wavelength among those analysed, rms / geometric radius, no mutation by queries), RmsSpotSizeVsField, EncircledEnergy (the curve drawn by view(): energy within radius, monotone, reaches total), RayFan, Distortion and GridDistortion (angular and object-height fields, both types, bad type rejected), '
+    'FieldCurvature (crossing point of the two parabasal rays, curved image included), PupilAberration (real paraxial trace of the lens), RayOperand intercept/direction/rms_spot_size operands: every output equals the documented formula applied to the tracer values at the documented samples (recorded calls), for ALL tracers; explicit field / wavelength lists that differ from the lens included.',
+    'the agreement of the parabasal-ray focus with Coddington and of the small-field reference with the paraxial image height are properties of a REAL trace and are not decided here (uninterpreted tracer); 2 fields x 2 wavelengths, 2-7 rays per distribution, 2-3 points per curve; non-degenerate preconditions (reference chief ray off axis, parabasal rays not parallel) stated in the harness')
 NOT_YET = 'check not built yet in this round (work in progress; see DESIGN.md section 6 for the plan)'
 
 props = [json.loads(l) for l in open(os.path.join(ROOT, 'properties.jsonl'))]
